@@ -6,6 +6,21 @@ NOTES = ('Static analysis only: every verdict is computed from the ast of /repo/
          'Exit 2 + ANALYSIS-ERROR means the analysis could not decide (never a verdict).')
 
 CHECKS = {
+    'C01': {
+        'level': 'Formal (exact arithmetic) correctness of the whole first half of the Derivative pipeline for every accepted '
+                 '(method, n, order): table level identities for all configuration classes plus end-to-end abstract runs of '
+                 '_derivative_nonzero_order / _derivative_zero_order. The numerical accuracy envelope itself is not decided.',
+        'note': 'Decides a necessary condition (formal order of accuracy, exact f^(n) coefficient) - not the size of the error. '
+                'Trusted: python ast, abstract interpreter, numpy/scipy summaries (convolve1d model), Vandermonde non-singularity.',
+        'technique': 'abstract interpretation (exact algebra + symbolic function-value domain) of dispatch, quotients, rule(), _apply, _vstack; Taylor-signature identities',
+    },
+    'C05': {
+        'level': 'Every call of the user function made by any of the 31 difference quotients is extracted with its exact offset and '
+                 'classified against the method promise for every (class, method, configuration class, dimension 1..3); evaluation '
+                 'sites and generator step signs come from end-to-end abstract runs. Exhaustive over dispatch classes.',
+        'note': 'Assumes positive base step / ratio (negative user base_step is outside the claim). Trusted: python ast, abstract interpreter.',
+        'technique': 'abstract interpretation of the difference quotients with a recording symbolic f; offset classification in Q(zeta8)[j]',
+    },
     'C06': {
         'level': 'For every configuration class of (rule class, method, n, order) and a symbolic step ratio the formal '
                  'identities that make the rule exact to its stated order are decided by abstract interpretation with exact '
